@@ -169,6 +169,26 @@ func GenHistory(t *rapid.T, o GenOpts) []Op {
 			add(Op{Kind: "ins", Method: mm.Name, V: v})
 		}
 	}
+	if o.Labels && rapid.IntRange(0, 9).Draw(t, "define-rest") < 6 {
+		// define every label that is referenced but still undefined, so that Finalize can succeed
+		for _, lab := range labelPool {
+			if _, def := m.Labels[lab]; def {
+				continue
+			}
+			used := false
+			for _, r := range m.Refs {
+				used = used || r.Label == lab
+			}
+			if !used {
+				continue
+			}
+			if ps := pending[lab]; len(ps) > 0 && rapid.IntRange(0, 2).Draw(t, "solve-rest") == 0 {
+				want := rapid.SampledFrom([]int{127, 128}).Draw(t, "rest-dist")
+				pad(want - int(m.Addr-(ps[0].ins+2)))
+			}
+			add(Op{Kind: "label", Label: lab})
+		}
+	}
 	return ops
 }
 
